@@ -70,7 +70,7 @@ def guarded(ctx, url, recursive, limit=RECLIMIT):
         sys.setrecursionlimit(old)
     dt = time.perf_counter() - t
     if ctx is not None and dt > ctx.tmax:
-        ctx.tmax, ctx.tmax_input = dt, (url if len(url) < 200 else url[:200] + "...")
+        ctx.tmax, ctx.tmax_input = dt, url
     return r
 
 
@@ -392,10 +392,10 @@ def gen_struct(tier, level, residue=None, mod=1):
             for v in uniq(enc(leaf) for leaf in LEAVES + self_leaves(sh, key) for enc in ENCS):
                 yield fill(sh, key, v)
     elif level == 2:
-        outer_keys = ["url", "u", "q", "next", "Q", "xu"] if quick else ["url", "u", "l", "q", "next", "redirect_to", "Q", "xu"]
+        outer_keys = ["u", "q", "Q", "xu"] if quick else ["url", "u", "q", "next", "Q", "xu"]
         outer_encs = [enc_full, enc_none] if quick else ENCS
-        in_shapes = SHAPES_IN[:8] if quick else SHAPES_IN
-        in_keys = ["u", "url", "q", "redirect_to"] if quick else ["u", "url", "q", "redirect_to", "xu"]
+        in_shapes = SHAPES_IN[:8] if quick else SHAPES_IN[:10]
+        in_keys = ["u", "url", "q", "redirect_to"] if quick else ["u", "q", "redirect_to", "xu"]
         in_leaves = LEAVES_SMALL[:14] if quick else LEAVES
         in_encs = [enc_full, enc_none] if quick else ENCS
         inner = uniq(fill(s2, k2, e2(leaf)) for s2 in in_shapes for k2 in in_keys for leaf in in_leaves for e2 in in_encs)
@@ -404,8 +404,8 @@ def gen_struct(tier, level, residue=None, mod=1):
             for v in values:
                 yield fill(sh, key, v)
     elif level == 3:
-        sh3 = SHAPES[:4] + ["?{P}", "{P}", "http://a.com/p&{P}", "http://a.com/p#x&{P}"] if quick else SHAPES[:4] + SHAPES[6:9] + SHAPES[11:20]
-        k3 = ["u", "q", "url"] if quick else ["u", "q", "url", "next"]
+        sh3 = SHAPES[:4] + ["?{P}", "{P}", "http://a.com/p&{P}", "http://a.com/p#x&{P}"] if quick else SHAPES[:3] + SHAPES[6:8] + SHAPES[11:18]
+        k3 = ["u", "q", "url"]
         mid_sh = SHAPES_IN[:8]
         mid_k = ["u", "next"] if quick else ["u", "next", "q"]
         in_sh = SHAPES_IN[:8]
@@ -427,7 +427,7 @@ def gen_struct(tier, level, residue=None, mod=1):
             sh = sh[:5]
         ks = ["u", "q"]
         ks_out = ["u", "q", "url"]
-        leaves = LEAVES_SMALL[:10] if quick else LEAVES_SMALL + ["//?", "//#", "http://b.c", "///"]
+        leaves = LEAVES_SMALL[:10] if quick else LEAVES_SMALL
         values = []
         for e in ([enc_full] if quick else [enc_full, enc_none]):
             l1 = [fill(s, k, e(leaf)) for s in sh for k in ks for leaf in leaves]
@@ -655,7 +655,14 @@ def main():
                    "inputs_where_a_redirect_is_followed": followed})
     col.bounds = bounds
     col.notes.append("violating (input, recursive) pairs per clause/family (uncapped counts): " + json.dumps(fam, sort_keys=True))
-    col.notes.append("slowest single call: %.1f ms on %r" % (tmax[0] * 1000, tmax[1]))
+    if tmax[1] is not None:
+        again = []
+        for _ in range(3):
+            t = time.perf_counter()
+            guarded(None, tmax[1], True)
+            again.append(time.perf_counter() - t)
+        col.notes.append("slowest single call (wall-clock, includes scheduling noise of the machine): %.1f ms on %r (recursive=either); "
+                         "the same call re-timed 3 times afterwards: best %.2f ms" % (tmax[0] * 1000, short(tmax[1], 300), min(again) * 1000))
     col.rule = (
         "(A) every concatenation of <= %d tokens over the %d-token redirect alphabet %s; "
         "(B) the structured grammar: %d URL shapes putting key=value in query / bare / path / fragment / userinfo / host position x %d keys "
